@@ -10,7 +10,6 @@ import (
 	"net/url"
 	"time"
 
-	v1 "github.com/prometheus/client_golang/api/prometheus/v1"
 	"github.com/prymitive/current"
 	"gopkg.in/yaml.v3"
 )
@@ -141,7 +140,7 @@ func streamConfig(r io.Reader) (cfg PrometheusConfig, err error) {
 
 	dec := json.NewDecoder(r)
 	if err = decoder.Stream(dec); err != nil {
-		return cfg, APIError{Status: status, ErrorType: v1.ErrBadResponse, Err: fmt.Sprintf("JSON parse error: %s", err)}
+		return cfg, streamError(status, err)
 	}
 
 	if status != "success" {
